@@ -207,6 +207,123 @@ def configs(dtype):
     return cs
 
 
+# ------------------------------------------------------------------------------------------------
+# the "plumbing" grid: WHERE jitter / max_tries come from  x  boundary VALUES.
+# A settings layer is a dict {"k": "cj", "f": x|None, "d": x|None, "h": x|None} (with settings.cholesky_jitter(float_value=f,
+# double_value=d, half_value=h)), {"k": "mt", "v": k} (cholesky_max_tries(k)) or {"k": "trace", "v": bool}; "exit": True means the
+# context is entered AND left again at that nesting position before the call (its value must be gone, the enclosing value back).
+# cfg["ctx"] lists the layers outermost first.  The legacy keys sj / smt / trace are layers too (layers_of).
+
+def jitter_values(dtype):
+    d = dtype == "float64"
+    return {"zero": 0.0, "tiny": 1e-30, "default": 1e-8 if d else 1e-6, "mid": 2.5e-7 if d else 2.5e-5,
+            "big": 3e-4 if d else 3e-3, "large": 50.0}
+
+
+def _cj(dtype, v, others=None, half=None, **kw):
+    """cholesky_jitter layer giving v in the slot of `dtype` and `others` in the other real slot"""
+    lay = {"k": "cj", "f": others, "d": others, "h": half}
+    lay["d" if dtype == "float64" else "f"] = v
+    lay.update(kw)
+    return lay
+
+
+def _decoy(v, dtype):
+    """a value for the slots that must NOT be read: far from v and from the default"""
+    base = v if v >= 1e-15 else jitter_values(dtype)["default"]
+    return base * 1e3
+
+
+def jitter_sources(dtype):
+    """-> list of (label, cfg fragment).  The value in force is spelled out by spec_state (not by the label)."""
+    V = jitter_values(dtype)
+    other = "float32" if dtype == "float64" else "float64"
+    out = [("J:default", {}),
+           ("J:ctx-other-slot-only", {"ctx": [_cj(other, V["big"] * 7)]}),              # this dtype's slot untouched
+           ("J:ctx-half-only", {"ctx": [{"k": "cj", "f": None, "d": None, "h": V["big"] * 3}]})]
+    for name in ("zero", "tiny", "default", "mid", "big", "large"):
+        v = V[name]
+        out += [("J:arg=" + name, {"j": v}),
+                ("J:ctx-decoy=" + name, {"ctx": [_cj(dtype, v, others=_decoy(v, dtype), half=_decoy(v, dtype) * 3)]}),
+                ("J:ctx-slot-only=" + name, {"ctx": [_cj(dtype, v)]}),
+                ("J:ctx-all=" + name, {"ctx": [_cj(dtype, v, others=v, half=v)]})]
+    for name, wname in (("zero", "big"), ("mid", "large"), ("large", "zero"), ("tiny", "mid")):
+        v, w = V[name], V[wname]
+        out += [("J:nested-inner-wins=" + name, {"ctx": [_cj(dtype, w, others=w), _cj(dtype, v)]}),
+                ("J:nested-inner-none=" + name, {"ctx": [_cj(dtype, v, others=w), _cj(other, _decoy(v, dtype))]}),
+                ("J:exited-back-to-outer=" + name, {"ctx": [_cj(dtype, v), _cj(dtype, w, others=w, exit=True)]}),
+                ("J:exited-back-to-default(%s)" % name, {"ctx": [_cj(dtype, v if v > 0 else w, others=w, exit=True)]}),
+                ("J:arg-over-ctx=" + name, {"j": v, "ctx": [_cj(dtype, w, others=w, half=w)]})]
+    return out
+
+
+def tries_sources():
+    out = [("MT:default", {})]
+    for k in (0, 1, 2, 3, 5, 7):
+        out += [("MT:arg=%d" % k, {"mt": k}), ("MT:ctx=%d" % k, {"ctx": [{"k": "mt", "v": k}]})]
+    for k, w in ((0, 5), (2, 7), (5, 0), (1, 3)):
+        out += [("MT:nested-inner-wins=%d" % k, {"ctx": [{"k": "mt", "v": w}, {"k": "mt", "v": k}]}),
+                ("MT:exited-back-to-outer=%d" % k, {"ctx": [{"k": "mt", "v": k}, {"k": "mt", "v": w, "exit": True}]}),
+                ("MT:arg-over-ctx=%d" % k, {"mt": k, "ctx": [{"k": "mt", "v": w}]})]
+    out += [("MT:exited-back-to-default", {"ctx": [{"k": "mt", "v": 6, "exit": True}]}),
+            ("MT:arg=-1", {"mt": -1}), ("MT:ctx=-2", {"ctx": [{"k": "mt", "v": -2}]})]
+    return out
+
+
+def combine(jc, mc, mt_outside):
+    """one cfg from a jitter fragment and a max_tries fragment; the two stacks of layers are interleaved"""
+    cfg = {}
+    if "j" in jc:
+        cfg["j"] = jc["j"]
+    if "mt" in mc:
+        cfg["mt"] = mc["mt"]
+    a, b = list(jc.get("ctx", [])), list(mc.get("ctx", []))
+    layers = (b + a) if mt_outside else (a + b)
+    if layers:
+        cfg["ctx"] = layers
+    return cfg
+
+
+PLUMB_PATTERNS = [
+    ["s0"], ["sx"], ["s1"], ["s2"], ["s4"], ["s5"], ["z"], ["ind"], ["pd"], ["negd"],
+    ["pd", "s0"], ["s2", "s0"], ["nan", "s0"], ["s1", "pd", "s3"], ["sx", "z", "pd"], ["pd", "s3", "pd", "s0"], ["s6"],
+]
+
+
+def plumbing_cells(quick):
+    cells = []
+    reps = 1 if quick else 3
+    for dtype in ("float64", "float32"):
+        JS, MS = jitter_sources(dtype), tries_sources()
+        pairs = []
+        # (A) every jitter source x every pattern, the max_tries source rotating; (B) the converse
+        for ji in range(len(JS)):
+            for pi in range(len(PLUMB_PATTERNS)):
+                pairs.append(("A", ji, crc("A", dtype, ji, pi) % len(MS), pi))
+        for mi in range(len(MS)):
+            for pi in range(len(PLUMB_PATTERNS)):
+                pairs.append(("B", crc("B", dtype, mi, pi) % len(JS), mi, pi))
+        if not quick:          # thorough: the full cross on the singleton patterns that react to both values
+            for ji in range(len(JS)):
+                for mi in range(len(MS)):
+                    pairs.append(("X", ji, mi, [0, 1, 3, 5, 10, 13][crc("X", dtype, ji, mi) % 6]))
+        for part, ji, mi, pi in pairs:
+            if quick and pi >= 2 and (ji + mi + pi) % 2 == 1:
+                continue
+            for rep in range(reps):
+                h = crc("pl", part, dtype, ji, mi, pi, rep)
+                cfg = combine(JS[ji][1], MS[mi][1], bool(h & 4))
+                pat = PLUMB_PATTERNS[pi]
+                api = 1 if ("j" not in cfg and "mt" not in cfg and (h >> 3) % 3 == 0 and "nan" not in pat) else 0
+                n = [2, 3, 4, 5][(h >> 4) % 4] if api == 1 else [1, 2, 3, 4, 5, 6][(h >> 4) % 6]
+                shapes = SHAPES[len(pat)]
+                cells.append(dict(api=api, dtype=dtype, ci=200 + ji * 100 + mi, cfg=cfg, pi=pi, pat=pat, rep=rep, n=n,
+                                  src=[JS[ji][0], MS[mi][0]], upper=bool(h & 1), d32=bool(h & 2),
+                                  layout="contig" if api == 1 else ["contig", "mT", "slice", "contig"][(h >> 8) % 4],
+                                  shape=shapes[(h >> 12) % len(shapes)], scale_i=(h >> 16) % 3))
+    return cells
+
+
 def crc(*a):
     return zlib.crc32("|".join(str(x) for x in a).encode())
 
@@ -261,6 +378,7 @@ def enumerate_cells(quick):
                     cells.append(dict(api=1, dtype=dtype, ci=100 + ci, cfg=cfg, pi=pi, pat=pat, rep=rep, n=n,
                                       upper=bool(h & 1), d32=bool(h & 2), layout="contig",
                                       shape=shapes[(h >> 12) % len(shapes)], scale_i=(h >> 16) % 3))
+    cells += plumbing_cells(quick)
     return cells
 
 
@@ -272,11 +390,61 @@ def enumerate_cells(quick):
 SCALES = {"float64": [2.0 ** -8, 1.0, 2.0 ** 4, 2.0 ** -16], "float32": [2.0 ** -8, 1.0, 2.0 ** 4, 2.0 ** -16]}
 
 
-def effective(cell, defaults):
-    cfg = cell["cfg"]
-    j = cfg.get("j", cfg.get("sj", defaults[cell["dtype"]]))
-    mt = cfg.get("mt", cfg.get("smt", defaults["mt"]))
+def layers_of(cfg, dtype):
+    """all settings layers of a configuration, outermost first (legacy keys sj / smt / trace included)"""
+    ls = []
+    if "sj" in cfg:          # the slot of the case dtype gets sj, the other one a decoy
+        ls.append(_cj(dtype, cfg["sj"], others=cfg["sj"] * 1e3))
+    if "smt" in cfg:
+        ls.append({"k": "mt", "v": cfg["smt"]})
+    if cfg.get("trace"):
+        ls.append({"k": "trace", "v": True})
+    return ls + list(cfg.get("ctx", []))
+
+
+def spec_state(cfg, dtype, defaults):
+    """the settings state the SPECIFICATION of the contexts puts in force for the call, computed by the harness from the values it
+    asks the contexts to provide (never read back from the library): the innermost open context that specifies a value wins;
+    None = not specified; a context that has been left again counts for nothing"""
+    st = {"f": defaults["float32"], "d": defaults["float64"], "h": defaults["half"], "mt": defaults["mt"], "trace": False}
+    for lay in layers_of(cfg, dtype):
+        if lay.get("exit"):
+            continue
+        if lay["k"] == "cj":
+            for slot in ("f", "d", "h"):
+                if lay.get(slot) is not None:
+                    st[slot] = lay[slot]
+        elif lay["k"] == "mt":
+            st["mt"] = lay["v"]
+        elif lay["k"] == "trace":
+            st["trace"] = bool(lay["v"])
+    return st
+
+
+def spec_values(case, defaults):
+    """jitter / max_tries the SPECIFICATION says are in force (explicit argument, else the settings value); works for cells too"""
+    cfg, dtype = case["cfg"], case["dtype"]
+    st = spec_state(cfg, dtype, defaults)
+    j, mt = st["d" if dtype == "float64" else "f"], st["mt"]
+    if case["api"] == 0:     # the operator route passes no arguments
+        j, mt = cfg.get("j", j), cfg.get("mt", mt)
     return float(j), int(mt)
+
+
+def traced(case):
+    return spec_state(case["cfg"], case["dtype"], {"float32": 0.0, "float64": 0.0, "half": None, "mt": 0})["trace"]
+
+
+def effective(cell, defaults):
+    return spec_values(cell, defaults)
+
+
+def gen_jitter(cell, defaults):
+    """the jitter the member generators scale the 'needs exactly 10^k' / 'hopeless' families with: the one in force, or — when
+    that is 0 or negligible (no rung can repair anything) — the library default of the dtype, so that the matrices are exactly
+    those the DEFAULT ladder would repair (a settings mechanism that drops the requested value then returns silently)"""
+    j, _ = spec_values(cell, defaults)
+    return j if j >= 1e-15 else float(defaults[cell["dtype"]])
 
 
 def stage_shifts(j, mt):
@@ -302,8 +470,8 @@ def robust(members, exact, dtype, j, mt, n):
             m = a + c * torch.eye(n, dtype=F64)
             ev = torch.linalg.eigvalsh(m)
             lam, nrm = float(ev[0]), float(ev.abs().max())
-            if si == 0 and ex:
-                continue
+            if ex and (si == 0 or torch.equal(m, a)):
+                continue                    # decided in exact arithmetic (a shift absorbed by rounding changes nothing)
             if abs(lam) < 30 * n * eps * max(nrm, 1e-300):
                 return False
             md = a.to(DT[dtype]).clone()
@@ -317,18 +485,21 @@ def build_case(cell, rng, defaults):
     """-> case dict or None (no robust instance found for this cell)"""
     dtype, n, pat = cell["dtype"], cell["n"], cell["pat"]
     j, mt = effective(cell, defaults)
+    jg = gen_jitter(cell, defaults)
     order = [cell["scale_i"], (cell["scale_i"] + 1) % 3, (cell["scale_i"] + 2) % 3, 3]
     for attempt in range(12):
         scale = SCALES[dtype][order[attempt % 4]]
         members, exact = [], []
         for kind in pat:
-            a, ex = gen_member(rng, kind, n, dtype, scale, j, mt)
+            a, ex = gen_member(rng, kind, n, dtype, scale, jg, mt)
             members.append(a)
             exact.append(ex)
         if robust(members, exact, dtype, j, mt, n):
             case = {k: cell[k] for k in ("api", "dtype", "n", "upper", "d32", "layout", "pat", "ci", "pi", "rep")}
             case["shape"] = list(cell["shape"])
-            case["cfg"] = dict(cell["cfg"])
+            case["cfg"] = json.loads(json.dumps(cell["cfg"]))
+            if "src" in cell:
+                case["src"] = list(cell["src"])
             case["scale"] = scale
             case["A"] = [[[float(x).hex() for x in row] for row in a.tolist()] for a in members]
             if cell["layout"] == "expand":
@@ -397,16 +568,18 @@ def run_impl(case, defaults):
     obs = {"kind": 4, "warns": [], "last": 0.0, "L": None, "exc": None, "unchanged": False, "dtype_ok": True, "shape_ok": True}
     try:
         with contextlib.ExitStack() as es:
-            if "sj" in cfg:
-                decoy = cfg["sj"] * 1e3
-                if dtype == "float64":
-                    es.enter_context(S.cholesky_jitter(float_value=decoy, double_value=cfg["sj"]))
+            for lay in layers_of(cfg, dtype):
+                if lay["k"] == "cj":
+                    cm = S.cholesky_jitter(float_value=lay.get("f"), double_value=lay.get("d"), half_value=lay.get("h"))
+                elif lay["k"] == "mt":
+                    cm = S.cholesky_max_tries(lay["v"])
                 else:
-                    es.enter_context(S.cholesky_jitter(float_value=cfg["sj"], double_value=decoy))
-            if "smt" in cfg:
-                es.enter_context(S.cholesky_max_tries(cfg["smt"]))
-            if cfg.get("trace"):
-                es.enter_context(S.trace_mode(True))
+                    cm = S.trace_mode(bool(lay["v"]))
+                if lay.get("exit"):
+                    with cm:
+                        pass
+                else:
+                    es.enter_context(cm)
             a = make_input(case)
             before, ver = bits(a), a._version
             with warnings.catch_warnings(record=True) as w:
@@ -441,18 +614,6 @@ def run_impl(case, defaults):
 
 # ------------------------------------------------------------------------------------------------
 # the property evaluated directly on the implementation (independent oracle)
-
-def spec_values(case, defaults):
-    """jitter / max_tries the SPECIFICATION says are in force (explicit argument, else the settings value)"""
-    cfg = case["cfg"]
-    if case["api"] == 1:
-        j = cfg.get("sj", defaults[case["dtype"]])
-        mt = cfg.get("smt", defaults["mt"])
-    else:
-        j = cfg.get("j", cfg.get("sj", defaults[case["dtype"]]))
-        mt = cfg.get("mt", cfg.get("smt", defaults["mt"]))
-    return float(j), int(mt)
-
 
 def lower_of(case, obs):
     """observed factor as (B, n, n) float64, made lower"""
@@ -510,6 +671,15 @@ def expected(case, defaults):
     return {"kind": 0, "nwarn": mx + 1, "shifts": [0.0 if k is None else j * (10 ** k) for k in ks], "ks": ks, "j": j, "mt": mt}
 
 
+def applied_jitter(case, obs):
+    """what the returned factor says was added to each member's diagonal: mean of diag(F F^T - A)"""
+    try:
+        Fl = lower_of(case, obs)
+        return [float((Fl[b] @ Fl[b].T - m).diagonal().mean()) for b, m in enumerate(members_of(case))]
+    except Exception:  # noqa
+        return None
+
+
 KIND_NAME = {0: "returned", 1: "NanError", 2: "NotPSDError", 3: "UnboundLocalError", 4: "other-exception"}
 
 
@@ -519,13 +689,17 @@ def predicate(case, obs, defaults):
     n, dtype = case["n"], case["dtype"]
     if not obs["unchanged"]:
         fails.append(("input-modified", "A (or its version counter) changed during the call"))
-    if case["cfg"].get("trace") or "nanu" in case["pat"]:
+    if traced(case) or "nanu" in case["pat"]:
         return fails            # outside the property's quantifier (trace mode / non-symmetric input)
     if case["api"] == 1 and n == 1 and any(bool(torch.isnan(m).any()) or float(m.min()) < 0 for m in members_of(case)):
         return fails            # 1 x 1 operator shortcut on a non-PSD operator: psd_safe_cholesky is not called at all
     ex = expected(case, defaults)
     if obs["kind"] != ex["kind"]:
-        fails.append(("wrong-outcome", "expected %s, observed %s (%s)" % (KIND_NAME[ex["kind"]], KIND_NAME[obs["kind"]], obs["exc"])))
+        extra = ""
+        if obs["kind"] == 0 and obs["shape_ok"] and obs["L"] is not None and n:
+            extra = "; jitter actually applied per member (mean of diag(F F^T - A)) = %s, requested ladder = %s" % (
+                applied_jitter(case, obs), [ex["j"] * 10 ** i for i in range(max(ex["mt"], 0))])
+        fails.append(("wrong-outcome", "expected %s, observed %s (%s)%s" % (KIND_NAME[ex["kind"]], KIND_NAME[obs["kind"]], obs["exc"], extra)))
         return fails
     # warnings: one per try, jitter * 10^i (the message prints two significant digits)
     want = [ex["j"] * (10 ** i) for i in range(ex["nwarn"])]
@@ -562,8 +736,9 @@ def predicate(case, obs, defaults):
         scale = float(target.abs().max()) if n else 0.0
         tol = 40.0 * (n + 1) * EPS[dtype] * scale + 2e-7 * abs(c) + 1e-300
         if n and float(R.abs().max()) > tol:
-            fails.append(("factor", "member %d: |F F^T - (A + %.3g I)|_max = %.3g > %.3g (diagonal excess %s)" % (
-                b, c, float(R.abs().max()), tol, [float(x) for x in (Fl[b] @ Fl[b].T - m).diagonal()][:4])))
+            fails.append(("factor", "member %d: |F F^T - (A + %.3g I)|_max = %.3g > %.3g (jitter actually applied = diag(F F^T - A) = %s; "
+                          "requested ladder %s)" % (b, c, float(R.abs().max()), tol, [float(x) for x in (Fl[b] @ Fl[b].T - m).diagonal()][:4],
+                                                   [ex["j"] * 10 ** i for i in range(max(ex["mt"], 0))])))
             break
         if n and not ex.get("scalar") and bool((Fl[b].diagonal() <= 0).any()):
             fails.append(("factor", "member %d: non-positive diagonal in the factor" % b))
@@ -590,6 +765,11 @@ def key_of(case, cat, obs, defaults):
          "tries": "nonpositive" if mt <= 0 else "positive"}
     if cat == "wrong-outcome":
         k["observed"] = KIND_NAME[obs["kind"]]
+    cfg = case["cfg"]
+    has = lambda kind: any(l["k"] == kind for l in layers_of(cfg, case["dtype"]))
+    k["jitter"] = "zero" if j == 0 else "positive"
+    k["jitter_from"] = "argument" if ("j" in cfg and case["api"] == 0) else ("settings" if has("cj") else "default")
+    k["tries_from"] = "argument" if ("mt" in cfg and case["api"] == 0) else ("settings" if has("mt") else "default")
     return k
 
 
@@ -624,10 +804,14 @@ def tolerances(case, defaults):
             tolL.append(1e-9 if dtype == "float64" else 5e-6), sL.append(1.0), tolinc.append(1e-9)
             continue
         # the matrix this member ends up with: first stage at which it is p.d.
+        # (decided like the loop decides: LAPACK in the case dtype.  For the exact singular families eigvalsh of the
+        # unshifted matrix can be +1e-19, which would select stage 0 and a tolerance that ignores the jitter)
         fin, cfin = m, 0.0
         for c in stage_shifts(j, mt):
             fin, cfin = m + c * torch.eye(n, dtype=F64), c
-            if float(torch.linalg.eigvalsh(fin)[0]) > 0:
+            md = m.to(DT[dtype]).clone()
+            md.diagonal().add_(c)
+            if chol_ok(md) and float(torch.linalg.eigvalsh(fin)[0]) > 0:
                 break
         # the jitter itself is only pinned down to float32 resolution (the library forms the increment as a tensor of
         # the default dtype; a rewrite that forms it in A.dtype is equally good): relative 2.5e-7 on the shift
@@ -649,15 +833,22 @@ def case_lit(case, obs, defaults):
     n, dtype, cfg = case["n"], case["dtype"], case["cfg"]
     ms = [m.tolist() for m in members_of(case)]
     B = len(ms)
-    # settings in force, as the harness set them (not read back through the library)
-    cjf, cjd = defaults["float32"], defaults["float64"]
-    if "sj" in cfg:
-        if dtype == "float64":
-            cjf, cjd = cfg["sj"] * 1e3, cfg["sj"]
+    # the model receives the library defaults as the outer state and the CONTEXTS the harness opened with the values it asked
+    # for (never read back through the library); Model.enter_all computes what is in force.  Contexts that were left again
+    # before the call are not open (that __exit__ restores the previous state is C17's theorem; here it is checked by comparison)
+    st = "(MkSettings %s %s %s %s false)" % (fl(defaults["float32"]), fl(defaults["float64"]), fl(defaults["half"] or 0.0),
+                                             common.zlit(defaults["mt"]))
+    cx = []
+    for lay in layers_of(cfg, dtype):
+        if lay.get("exit"):
+            continue
+        if lay["k"] == "cj":
+            cx.append("CtxJitter %s %s %s" % (opt(lay.get("f"), fl), opt(lay.get("d"), fl), opt(lay.get("h"), fl)))
+        elif lay["k"] == "mt":
+            cx.append("CtxMaxTries %s" % common.zlit(lay["v"]))
         else:
-            cjf, cjd = cfg["sj"], cfg["sj"] * 1e3
-    cmt = cfg.get("smt", defaults["mt"])
-    st = "(MkSettings %s %s %s %s %s)" % (fl(cjf), fl(cjd), fl(defaults["half"] or 0.0), common.zlit(cmt), common.coq_bool(bool(cfg.get("trace"))))
+            cx.append("CtxTrace %s" % common.coq_bool(bool(lay["v"])))
+    st += " [" + "; ".join(cx) + "]"
     tolL, sL, tolinc, tolw = tolerances(case, defaults)
     oL, oinc = [], []
     if obs["kind"] == 0 and obs["L"] is not None:
@@ -693,6 +884,8 @@ REASON = {1: "outcome kind", 2: "warnings (jitter values)", 3: "factor values", 
 
 def slim(case, obs=None):
     c = {k: case[k] for k in ("api", "dtype", "n", "shape", "upper", "d32", "layout", "pat", "cfg", "scale")}
+    if "src" in case:
+        c["src"] = case["src"]
     if obs is not None:
         c["observed"] = {"kind": KIND_NAME[obs["kind"]], "warns": obs["warns"], "exc": obs["exc"]}
     return c
@@ -730,7 +923,7 @@ def direct_search(ctx, cases, defaults, observations=None, limit=6):
         seen.add(sig)
         rp = {"kind": "property-failure", "what": text, "all": [t for _, t in fs][:5], "case": c,
               "observed": {"kind": KIND_NAME[obs["kind"]], "warns": obs["warns"], "exc": obs["exc"]},
-              "expected": {k: v for k, v in expected(c, defaults).items() if k != "shifts"} if not c["cfg"].get("trace") else None}
+              "expected": {k: v for k, v in expected(c, defaults).items() if k != "shifts"} if not traced(c) else None}
         if ctx.violation(rp, key=key):
             found += 1
         if found >= limit:
@@ -766,8 +959,8 @@ def run(ctx):
             shards.append(("c16_%d" % (s // SH),
                            shard_src([case_lit(c, o, defaults) for c, o in zip(cases[s:s + SH], observations[s:s + SH])])))
         res = {}
-        for g in range(0, len(shards), 6):          # at most 6 shard compilers at a time
-            res.update(common.run_shards(ctx, shards[g:g + 6]))
+        for g in range(0, len(shards), 3):          # at most 3 shard compilers at a time
+            res.update(common.run_shards(ctx, shards[g:g + 3]))
         for si, (name, _) in enumerate(shards):
             rc, out = res[name]
             bad = common.parse_coq_list_of_nat(out) if rc == 0 else None
@@ -788,7 +981,7 @@ def run(ctx):
                 reported.add(sig)
                 ctx.violation({"kind": "property-failure", "what": fs[0][1], "case": c, "model_disagrees_on": REASON.get(why)}, key=key)
             else:
-                sig = (why, c["api"], c["dtype"], bool(c["cfg"].get("trace")))
+                sig = (why, c["api"], c["dtype"], traced(c))
                 if sig in reported:
                     continue
                 reported.add(sig)
@@ -807,6 +1000,17 @@ def run(ctx):
                     for c, o in zip(cases, observations) if c["n"] >= 2 and len(c["pat"]) >= 1 and (o["kind"] != 0 or o["warns"] or len(c["pat"]) > 1)})
     mixed = sum(1 for c, o in zip(cases, observations)
                 if o["kind"] == 0 and o["warns"] and len(set(c["pat"])) > 1)
+    # where the values came from / which boundary values were in force (the plumbing grid)
+    sources, jit_class, tries_hist, zero_notpsd = {}, {}, {}, 0
+    for c, o in zip(cases, observations):
+        j, mt = spec_values(c, defaults)
+        for lab in c.get("src", ["legacy-grid"]):
+            lab = lab.split("=")[0]
+            sources[lab] = sources.get(lab, 0) + 1
+        cls = "zero" if j == 0 else ("tiny" if j < 1e-15 else ("large" if j >= 1.0 else "ordinary"))
+        jit_class[cls] = jit_class.get(cls, 0) + 1
+        tries_hist[str(mt)] = tries_hist.get(str(mt), 0) + 1
+        zero_notpsd += int(j == 0 and o["kind"] == 2)
     ctx.coverage.update({
         "trusted_base": common.COQ_TRUSTED + [
             "coq/C16/Model.v is a hand transcription of linear_operator/utils/cholesky.py and of the dense _cholesky/cholesky path "
@@ -820,13 +1024,18 @@ def run(ctx):
             "independent oracle in triage: per-member torch.linalg.cholesky_ex on A_b + jitter*10^k I assembled by the harness",
         ],
         "evaluations": len(cases), "distinct_nontrivial": distinct,
-        "rule": "cells = dtype x configuration (how jitter/max_tries arrive: defaults, explicit, settings, both, trace) x batch pattern "
+        "rule": "cells = dtype x configuration (how jitter/max_tries arrive: defaults, explicit, settings, both, trace) x batch pattern; plus the "
+                "plumbing grid: every jitter source (argument, settings context with decoys / slot only / all slots, nested, left-again, "
+                "argument over context, default) x boundary value (0, 1e-30, default, mid, big, 50) x pattern and every max_tries source x "
+                "{-2,-1,0,1,2,3,5,7} x pattern, direct call and operator route; "
                 "(member families pd/pdk/pdx/sx/z/s<k>/ind/negd/nan/nanu) with n, batch shape, upper, default dtype, memory layout rotated by a "
                 "seed-independent hash; the seed picks the matrix entries. non-trivial = n >= 2 and (an error is raised, or jitter is added, or the "
                 "batch has more than one member); distinct by (api, dtype, configuration, pattern, shape, n, upper, default dtype, layout)",
         "dropped_borderline_cells": dropped, "mismatches": len(mism), "mismatch_reasons": sorted({REASON.get(w, str(w)) for _, w in mism}),
         "direct_property_failures": direct, "direct_failure_keys": sorted(direct_keys),
         "outcomes": outcome, "member_families": fam, "mixed_batches_with_jitter": mixed,
+        "value_sources": sources, "jitter_in_force": jit_class, "max_tries_in_force": tries_hist,
+        "zero_jitter_cases_ending_in_NotPSDError": zero_notpsd,
         "wall_impl_s": round(t_impl, 1),
         "source_ast_sha": source_fingerprint(), "source_matches_transcription": source_fingerprint() in TRANSCRIBED_AST_SHA,
         "samples": [slim(cases[len(cases) // 3], observations[len(cases) // 3]), slim(cases[(2 * len(cases)) // 3], observations[(2 * len(cases)) // 3])],
@@ -852,7 +1061,7 @@ def replay(rp):
     fs = predicate(case, obs, defaults)
     print("case:", json.dumps(slim(case)))
     print("observed:", KIND_NAME[obs["kind"]], "warnings", obs["warns"], obs["exc"] or "")
-    if not case["cfg"].get("trace"):
+    if not traced(case):
         ex = expected(case, defaults)
         print("expected:", KIND_NAME[ex["kind"]], "warnings", [ex["j"] * 10 ** i for i in range(ex["nwarn"])], "per-member shifts", ex["shifts"])
     ctx = common.Ctx(PROP, "replay", 0)
